@@ -59,6 +59,9 @@ class Alphabet:
         from tinyflux import Point
 
         t, m, tags, fields = self.points[name]
+        if t is not None and name[-1:] in "13579":
+            # every other alphabet point is built through the constructor's keyword arguments
+            return Point(time=t, measurement=m, tags=dict(tags), fields=dict(fields))
         p = Point()
         if t is not None:
             p.time = t
